@@ -228,7 +228,7 @@ def confirms(v, obs):
         return "PANIC" in items or obs == "CRASH"
     if k == "unwind":
         return obs == "HANG" or obs == "CRASH"
-    if k in ("frame", "memory", "race"):
+    if k in ("frame", "memory", "race", "ownership"):
         return any(i.startswith("FAIL:") for i in items)
     return False
 
@@ -367,14 +367,22 @@ def check_property(pid, tier, seed):
                                             timeout_s=ob.get("native_timeout_s", 40), repeat=ob.get("native_repeat", 1))
             eng = engine_concrete(ob["entry"], used, vectors, opts) if vectors else []
             confirmed_here = []
+            race_log = None
             for i, v in enumerate(todo):
                 idn = ident(ob["id"], v)
+                if v["kind"] in ("race", "ownership") and ob.get("native_race_entry"):
+                    if race_log is None:
+                        robs, race_log, _ = native_run(ob["native_race_entry"], used, [[0], [1]], dropped_files, timeout_s=120, race=True)
+                        race_log = (race_log or "") + " ".join(o or "" for o in robs)
+                    if "DATA RACE" in race_log or "FAIL:" in race_log or "fatal error" in race_log:
+                        nat[i] = "FAIL:native-race-detector"
                 if confirms(v, nat[i]):
                     h = hashlib.sha1(idn.encode()).hexdigest()[:10]
                     path = os.path.join(VERIF, "replays", "%s-%s.json" % (ob["id"], h))
                     json.dump({"property": pid, "obligation": ob["id"], "entry": ob["entry"], "params": used,
                                "vector": v["vector"], "kind": v["kind"], "assert_id": v["assert_id"], "tags": v.get("tags") or [],
                                "input_text": v.get("text", ""), "where": v.get("where", ""),
+                               "native_race_entry": ob.get("native_race_entry", ""), "native_repeat": ob.get("native_repeat", 1),
                                "native_observation": nat[i], "native_panic": msgs.get(i, "")}, open(path, "w"), indent=1)
                     violations.append((idn, v, path))
                     confirmed_here.append(idn)
@@ -469,11 +477,21 @@ def check_property(pid, tier, seed):
 
 def replay(path):
     r = json.load(open(path))
-    obs, log, msgs = native_run(r["entry"], r.get("params") or {}, [r["vector"]], set(), timeout_s=40)
+    v = {"kind": r["kind"], "assert_id": r["assert_id"]}
+    if r["kind"] in ("race", "ownership") and r.get("native_race_entry"):
+        obs, log, msgs = native_run(r["native_race_entry"], r.get("params") or {}, [[0], [1]], set(), timeout_s=120, race=True)
+        text = (log or "") + " ".join(o or "" for o in obs)
+        hit = "DATA RACE" in text or "FAIL:" in text or "fatal error" in text
+        print("native stress run under the race detector:", "race / failure reported" if hit else "clean")
+        if hit:
+            print("VIOLATION property=%s replay=%s" % (r["property"], path))
+            return 1
+        print("not reproduced")
+        return 0
+    obs, log, msgs = native_run(r["entry"], r.get("params") or {}, [r["vector"]], set(), timeout_s=40, repeat=r.get("native_repeat", 1))
     print("native observation:", obs[0])
     if msgs:
         print("panic:", msgs.get(0))
-    v = {"kind": r["kind"], "assert_id": r["assert_id"]}
     if confirms(v, obs[0]):
         print("VIOLATION property=%s replay=%s" % (r["property"], path))
         return 1
